@@ -4,12 +4,16 @@
         `new=OK w h alpha anim lossy frames loop dur nfs=<n> chunks=<cc:s-e,..|-> c=<calls> icc=<hex|none|ERR cls> c=<n>
          exif=.. c=<n> xmp=.. c=<n>` | `new=ERR <cls> c=<n>` | `new=PANIC <kind> c=<n>` | `new=OUTOFFUEL c=<n>`,
         runs joined by " | ".   cls: Io:Eof | Io:Fault | Io:InvalidSeek | <DecodingError variant>
-   `ciof <hex file> <sched>/<fail|->/<impl outcome>/<impl calls> ...` -> for every run, Model.ContainerIO.cio_frame_eval
-        (new, then the ANMF header part of read_frame) compared with what the implementation's read_frame did:
-        `AGREE` | `DISAGREE model=<..>`.  The model stops where the payload decoder starts, hence:
+   `ciof <hex file> <sched>/<fail|->/<frame>;<frame>;... ...` with <frame> = `<calls at the start of this read_frame>,<impl
+        outcome OK|ERR:cls|PANIC>,<calls at its end>,<next_frame_start after it (hook)>` -> for every run,
+        Model.ContainerIO.cio_frames_eval (new, then the ANMF header part of successive read_frame calls; the call counter
+        at the start of each is taken from the implementation because payload decoding is not modelled):
+        `AGREE` | `DISAGREE <why>`.  The model stops where the payload decoder starts, hence per frame:
           model header ERR cls at c calls  : the implementation must report ERR:cls with exactly c calls
-          model header OK at c calls       : the implementation must have made at least c calls, and must not report
-                                             FrameOutsideImage (only the header can raise it) nor a fault-free Io:Fault
+          model header OK at c calls       : the implementation must have made at least c calls, must not report
+                                             FrameOutsideImage (only the header can raise it) nor a fault-free Io:Fault,
+                                             and next_frame_start must be the model's (the one the loop over skipped
+                                             chunks left), plus anmf_size + 8 exactly when read_frame succeeded
    sched: w | c<k> | h<seed> | l<a.b.c>.
    Only parsing, printing and the comparison rule above happen here; every value is computed by extracted Coq code. *)
 open Oracle_gen
@@ -129,26 +133,49 @@ let run_cio (limit : z option) (bytes : z list) (spec : string) : string =
        Printf.sprintf "%s icc=%s c=%s exif=%s c=%s xmp=%s c=%s" head (meta ri) (zdec c2) (meta re) (zdec c3) (meta rx) (zdec c4))
   | _ -> "BADSPEC"
 
+(* one frame of one run: what the implementation's read_frame did against the model's header result *)
+let frame_verdict (fail : z option) (i : int) ((c_start, outcome, impl_calls, impl_nfs) : z * string * z * z)
+    ((rf, c_hdr) : frame_header ires * z) : string option =
+  let bad fmt = Printf.ksprintf (fun m -> Some (Printf.sprintf "frame %d: %s" i m)) fmt in
+  match rf with
+  | IErr e ->
+    let want = "ERR:" ^ xerr_name e in
+    if outcome = want && Z.eqb impl_calls c_hdr then None else bad "model=%s c=%s" want (zdec c_hdr)
+  | IPanic p -> if outcome = "PANIC" then None else bad "model=PANIC %s" (panic_name p)
+  | IOutOfFuel -> bad "model=OUTOFFUEL"
+  | IOk fh ->
+    let nfs_want =
+      if outcome = "OK" then Z.add (Z.add fh.fh_next_frame_start fh.fh_anmf_size) (z_of_int 8) else fh.fh_next_frame_start in
+    if Z.leb c_hdr impl_calls && outcome <> "ERR:FrameOutsideImage" && outcome <> "PANIC"
+       && not (outcome = "ERR:Io:Fault" && fail = None) && Z.eqb impl_nfs nfs_want
+    then None else bad "model=HDROK c=%s nfs=%s anmf=%s" (zdec c_hdr) (zdec fh.fh_next_frame_start) (zdec fh.fh_anmf_size)
+
 let run_ciof (bytes : z list) (spec : string) : string =
   match String.split_on_char '/' spec with
-  | [sw; fw; outcome; calls] ->
+  | [sw; fw; frames] ->
     let fail = zopt fw in
-    let impl_calls = z_of_dec calls in
-    let (c_new, rest) = cio_frame_eval (sched_of sw) fail bytes in
+    let fr = List.map (fun f -> match String.split_on_char ',' f with
+        | [a; b; c; d] -> (z_of_dec a, b, z_of_dec c, z_of_dec d)
+        | _ -> failwith "bad frame") (String.split_on_char ';' frames) in
+    let (c_new, rest) = cio_frames_eval (sched_of sw) fail bytes (List.map (fun (a, _, _, _) -> a) fr) in
     (match rest with
      | None -> "DISAGREE model=new-failed c=" ^ zdec c_new
-     | Some (rf, c_hdr) ->
-       (match rf with
-        | IErr e ->
-          let want = "ERR:" ^ xerr_name e in
-          if outcome = want && Z.eqb impl_calls c_hdr then "AGREE"
-          else Printf.sprintf "DISAGREE model=%s c=%s" want (zdec c_hdr)
-        | IPanic p -> if outcome = "PANIC" then "AGREE" else "DISAGREE model=PANIC " ^ panic_name p
-        | IOutOfFuel -> "DISAGREE model=OUTOFFUEL"
-        | IOk _ ->
-          if Z.leb c_hdr impl_calls && outcome <> "ERR:FrameOutsideImage" && outcome <> "PANIC"
-             && not (outcome = "ERR:Io:Fault" && fail = None)
-          then "AGREE" else Printf.sprintf "DISAGREE model=HDROK c=%s" (zdec c_hdr)))
+     | Some ml ->
+       (* no I/O happens between `new` and the first read_frame *)
+       let first_ok = match fr with (a, _, _, _) :: _ -> Z.eqb a c_new | [] -> true in
+       if not first_ok then "DISAGREE model=calls-after-new " ^ zdec c_new
+       else begin
+         (* the model's list stops at its first header that is not Ok; the implementation's list stops at the first
+            read_frame that is not OK: a model error must therefore be the last implementation frame *)
+         let rec go i fr ml = match fr, ml with
+           | [], _ -> "AGREE"
+           | _ :: _, [] -> Printf.sprintf "DISAGREE frame %d: the model stopped before it" i
+           | f :: ft, m :: mt ->
+             (match frame_verdict fail i f m with
+              | Some why -> "DISAGREE " ^ why
+              | None -> go (i + 1) ft mt) in
+         go 1 fr ml
+       end)
   | _ -> "BADSPEC"
 
 let eval (ws : string list) : string option =
